@@ -29,7 +29,7 @@ Fld(r, f, dflt) == IF f \in DOMAIN r THEN r[f] ELSE dflt
 (* ideal context of a host-level Context object *)
 CtxOf(c, id) == IF id \in DOMAIN c THEN c[id] ELSE State0
 PutCtx(c, id, S) == [x \in (DOMAIN c) \cup {id} |-> IF x = id THEN S ELSE c[x]]
-Settle(S) == [S EXCEPT !.sig = "", !.err = NoErr, !.out = "", !.rv = VNil, !.hasrv = FALSE, !.cerr = NoErr, !.depth = 0, !.inloop = 0, !.locked = {}]
+Settle(S) == [S EXCEPT !.sig = "", !.err = NoErr, !.out = "", !.rv = VNil, !.hasrv = FALSE, !.cerr = NoErr, !.depth = 0, !.inloop = 0, !.locked = {}, !.itype = NoFrame]
 
 NoResidue(o) == /\ Fld(o, "ctrl", 0) = 0 /\ Fld(o, "lvl", 0) = 0
                 /\ ~Fld(o, "brk", FALSE) /\ ~Fld(o, "cont", FALSE) /\ ~Fld(o, "ret", FALSE)
